@@ -224,20 +224,31 @@ class P(Service):
     def itemspin(ctx):
         return 5
 
+    # no explicit address: the pattern answers at the registered (in-message) name, not at the function's name
+    @rpc(_returns=Integer, _in_message_name='ting', _patterns=[HttpPattern(verb='GET')])
+    def get_ting(ctx):
+        return 6
+
+
+# the reference routing table, written down independently of what spyne compiles: (registered name, whole-path
+# regular expression, verb expression); literal addresses are listed before the one with a placeholder
+REF_ROUTES = [('itemspin', r'/item/spin', 'GET'), ('ping', r'/ping', None), ('ting', r'/ting', 'GET'), ('user', r'/user', 'GET'),
+              ('userping', r'/user/ping', '(GET|POST)'), ('item', r'/item/[^/]*', 'GET')]
+
 
 PAPP = Application([P], TNS, in_protocol=HttpRpc(), out_protocol=JsonDocument())
 PW = WsgiApplication(PAPP)
 
 
-@harness('C11', tier_params={'quick': [1, 4, 5, 6, 7, 8, 10, 11], 'thorough': list(range(1, 14))}, label=lambda L: 'pathlen=%d' % L,
+@harness('C11', tier_params={'quick': [1, 4, 5, 6, 7, 8, 9, 10, 11], 'thorough': list(range(1, 14))}, label=lambda L: 'pathlen=%d' % L,
          functions=['spyne.server.http.HttpBase.match_pattern', 'spyne.protocol.http.HttpPattern._compile_url_pattern'],
          bounds={'path': 'every path of the given lengths over the characters of the registered addresses '
-                         '(/user, /item/<item_id>, /item/spin, /ping, /user/ping) plus two foreign characters; verbs GET, POST, PUT'})
+                         '(/user, /item/<item_id>, /item/spin, /ping, /user/ping, and /ting for an address-less pattern of a method registered under a custom name) plus foreign characters; verbs GET, POST, PUT'})
 def http_pattern(sx, L):
     """HttpPattern routing: the method whose address pattern matches the *whole* path (and whose verb matches) is
     selected; a path that merely starts with, ends with or resembles a registered address selects nothing"""
     import re
-    path = '/' + sx.text('path', L - 1, alphabet='/useritmpng4X') if L > 1 else '/'
+    path = '/' + sx.text('path', L - 1, alphabet='/useritmpng4X_') if L > 1 else '/'
     verb = sx.choose('verb', ['GET', 'POST', 'PUT'])
     env = {'REQUEST_METHOD': verb, 'PATH_INFO': '/', 'QUERY_STRING': '', 'SERVER_NAME': 'localhost',
            'SERVER_PORT': '80', 'wsgi.url_scheme': 'http'}
@@ -247,13 +258,11 @@ def http_pattern(sx, L):
     sx.observe('selected', got)
     # reference: among the patterns whose address matches the whole path (and whose verb matches), a literal
     # address wins over one with a placeholder (the most specific address answers)
-    pats = sorted(PW._http_patterns, key=lambda x: ('<' in x.address, x.address))
     want = []
-    for patt in pats:
-        verb_ok = patt.verb is None or re.fullmatch(patt.verb_re.pattern, verb) is not None
-        if not verb_ok:
+    for name, addr, verbs in REF_ROUTES:
+        if verbs is not None and re.fullmatch(verbs, verb) is None:
             continue
-        want.append((patt.endpoint.name, sx.matches(patt.address_re.pattern, path)))
+        want.append((name, sx.matches(addr, path)))
     ok = []
     none_before = True
     for name, m in want:
